@@ -393,7 +393,8 @@ def stdInterp (rank : Prim → Nat) (along : String → NT → NT) (opq : String
 /-- `kind` 0 assignment to `self.x`; 1 `setattr` / `register_buffer` / `__dict__` / `self.train()`; 2 in-place method or
 item assignment on a `self.*` chain; 3 class attribute; 4 module-level name (`global`, `_CACHE[k] = …`); 5 memoising
 decorator; 6 process-wide torch switch (`torch.backends.*`, `set_default_dtype`, `set_grad_enabled`, seeding, …);
-7 mutable default argument; 8 in-place update of a parameter (the caller's object); 9 in-place method on a local tensor -/
+7 mutable default argument; 8 in-place update of a parameter (the caller's object); 9 in-place method on a local tensor;
+10 a read of a process-wide mode that is not an input of the call (`torch.is_grad_enabled()`, default dtype, RNG state) -/
 structure EffRow where
   fn : String
   kind : Nat
@@ -406,7 +407,9 @@ def allowedEffects : List (String × String) :=
   [("LPDNetEngine.forward_function", "data['sensitivity_map']"),
    ("MRIVarSplitNetEngine.forward_function", "data['sensitivity_map']"),
    ("VSharpNet3DEngine.forward_function", "data['sensitivity_map']"),
-   ("VSharpNetEngine.forward_function", "data['sensitivity_map']")]
+   ("VSharpNetEngine.forward_function", "data['sensitivity_map']"),
+   -- CIRIM threads its own per-call list of hidden states through its cascades (created inside the same `forward`)
+   ("RIMBlock.forward", "hidden_state[hs]")]
 
 def EffRow.ok (r : EffRow) : Bool := r.kind == 9 || (r.kind == 8 && allowedEffects.contains (r.fn, r.detail))
 
